@@ -154,7 +154,7 @@ def assigned_names(stmts):
                     if it.optional_vars is not None:
                         tgt(it.optional_vars)
             elif isinstance(n, ast.Call) and isinstance(n.func, ast.Attribute) and n.func.attr in (
-                    "append", "extend", "update", "pop", "insert", "remove", "clear", "popleft", "appendleft"):
+                    "append", "extend", "update", "pop", "insert", "remove", "clear", "popleft", "appendleft", "reverse", "sort"):
                 base = n.func.value
                 while isinstance(base, ast.Subscript):
                     base = base.value
@@ -461,6 +461,17 @@ class Evaluator:
         if isinstance(e, ast.Call) and isinstance(e.func, ast.Attribute):
             meth = e.func.attr
             recv_node = e.func.value
+            if meth in ("reverse", "sort") and not e.args and not (meth == "sort" and e.keywords):
+                recv0 = self.expr(recv_node, fr)
+                if isinstance(recv0, list) or (isinstance(recv0, T) and tm.tyof(recv0) in (tm.LIST, tm.ANY) and isinstance(recv_node, ast.Name)):
+                    # in-place list.reverse() / list.sort(): the name now holds the reversed / sorted list
+                    if isinstance(recv0, list) and meth == "reverse":
+                        recv0.reverse()
+                    elif isinstance(recv_node, ast.Name):
+                        fr.env[recv_node.id] = T("rev", (tm._fz(recv0),), tm.LIST) if meth == "reverse" else T("mutated", ("sort", tm._fz(recv0)), tm.LIST)
+                    else:
+                        raise AnalysisError("in-place %s() of a container that is not a plain local" % meth)
+                    return
             if meth in ("append", "extend", "update", "insert", "pop", "remove", "clear", "popleft", "appendleft"):
                 recv = self.expr(recv_node, fr)
                 args = [self.expr(a, fr) for a in e.args]
@@ -1427,6 +1438,13 @@ class Evaluator:
 
     def _extern(self, n, pos, kw, e, fr):
         a0 = pos[0] if pos else None
+        if n == "next" and pos:
+            seq0 = _concrete_iter(a0) if not isinstance(a0, (str, bytes, dict)) else None
+            if seq0 is not None:
+                if seq0:
+                    return seq0[0]
+                if len(pos) > 1:
+                    return pos[1]
         if n == "len":
             return tm.length(a0)
         if n == "int.from_bytes":
